@@ -33,6 +33,7 @@ func runC15(c *core.Ctx) {
 	c.Rule("R7", "the owner count guarding deletion counts every owner of the partition (no clock, no other field)", 1)
 	c.Rule("R8", "partition state and state-change lock merge as separate last-writer-wins registers (shared with C03.R1)", 2)
 	c.Rule("R6", "active-partition lookup uses the active flag of the same token index; the batch lookup keeps key indexes", 3)
+	c.Rule("R11", "the token list and token→partition map a lookup reads are computed from the descriptor the PartitionRing stores (shared with C13.R5)", 1)
 	c.Rule("R9", "the successor search runs over a token list sorted where it is built, from descriptors in any order (shared with C14.R5)", 1)
 	pkg := c.Prog.Pkg("ring")
 	if pkg == nil {
@@ -493,6 +494,7 @@ func c15Lookup(c *core.Ctx, pkg *packages.Package) {
 	c15InactiveSince(c, pkg)
 	c01SearchTokenAs(c, pkg, "R10")
 	c14PartitionTokensSorted(c, pkg, "R9")
+	c13PartitionDerived(c, pkg, "R11")
 }
 
 // c15LookupAs runs the lookup rules under rule id R (shared with C14, whose ranges are defined by this lookup).
